@@ -117,6 +117,37 @@ fn hex_inputs() -> Vec<String> {
     v
 }
 
+/// deeply nested payloads can exhaust the stack of a recursive parser - an abort no catch_unwind sees.
+/// They are therefore parsed in a child process (`pvmc C09 --deep-child`); the parent reads how it ended.
+pub fn deep_child() -> i32 {
+    adapter::freeze_default_clock();
+    for p in Proto::ALL {
+        let pool = domains::key_pool(p);
+        let key = &pool[0];
+        let seed = if p.is_local() { domains::seeds(p)[2].clone() } else { vec![] };
+        for depth in [200usize, 3_000, 100_000] {
+            for (name, payload) in [
+                ("arrays", format!("{}{}", "[".repeat(depth), "]".repeat(depth))),
+                ("objects", format!("{}1{}", "{\"a\":".repeat(depth), "}".repeat(depth))),
+                ("mixed", format!("{}1{}", "[{\"a\":".repeat(depth / 2), "}]".repeat(depth / 2))),
+            ] {
+                let Out::Ok(t) = adapter::core_issue(p, &key.sk, &seed, &payload, None, None) else { continue };
+                for layer in [Layer::Generic, Layer::Prelude] {
+                    println!("DEEP-NEXT {} {} {} {}", p.name(), layer.name(), name, depth);
+                    use std::io::Write;
+                    let _ = std::io::stdout().flush();
+                    let (obs, _) = adapter::present(p, layer, &key.pk, &t, None, None);
+                    if let Out::Panic(l) = obs {
+                        println!("DEEP-PANIC {} {} {} {} {}", p.name(), layer.name(), name, depth, l);
+                    }
+                }
+            }
+        }
+    }
+    println!("DEEP-DONE");
+    0
+}
+
 pub fn run(tier: &str) -> i32 {
     let run = Run::new("C09", tier);
     let quick = tier == "quick";
@@ -249,11 +280,9 @@ pub fn run(tier: &str) -> i32 {
 
         // (e) authentic tokens with hostile payloads (parser layers + the default parser)
         if *l != Layer::Core {
-            let deep = format!("{}{}", "[".repeat(10_000), "]".repeat(10_000));
-            let deep_obj = format!("{}1{}", "{\"a\":".repeat(10_000), "}".repeat(10_000));
             let mut payloads: Vec<String> = vec![
                 "".into(), "not json".into(), "[]".into(), "[1,2]".into(), "\"str\"".into(), "42".into(), "null".into(), "true".into(),
-                "{".into(), "{\"a\":}".into(), deep, deep_obj, "{\"exp\":".into(), "{\"data\":\"\\ud800\"}".into(), "{\"a\":1e999}".into(),
+                "{".into(), "{\"a\":}".into(), "{\"exp\":".into(), "{\"data\":\"\\ud800\"}".into(), "{\"a\":1e999}".into(),
             ];
             for k in ["exp", "nbf", "iat"] {
                 for v in ["0", "1", "1e10", "-1", "1.5", "true", "false", "[]", "[\"2999-01-01T00:00:00Z\"]", "{}", "\"\"", "\" \"", "\"x\"", "null", "\"2999-01-01\"", "\"2999-01-01T00:00:00Zjunk\"", "\"9999-12-31T23:59:59.999999999+23:59\"", "\"0000-01-01T00:00:00-23:59\"", "\"9999-12-31T23:59:59-23:59\"", "\"9999-12-31T23:59:59-00:01\"", "\"9999-12-31T23:59:59.999999999Z\"", "\"0000-01-01T00:00:00+23:59\"", "\"0000-01-01T00:00:00+00:01\"", "\"0000-01-01T00:00:00Z\"", "\"9999-12-31T23:59:60Z\"", "\"2999-01-01T00:00:00.0000000000000000000000001Z\""] {
@@ -277,6 +306,34 @@ pub fn run(tier: &str) -> i32 {
         acc
     });
     let mut all = Acc::merge_all(accs);
+
+    // ---- deep nesting, isolated in a child process
+    {
+        let exe = std::env::current_exe().unwrap_or_else(|_| crate::report::machinery_error("no current_exe"));
+        let o = std::process::Command::new(&exe).args(["C09", "--deep-child"]).output().unwrap_or_else(|_| crate::report::machinery_error("cannot spawn the deep-nesting child"));
+        let txt = String::from_utf8_lossy(&o.stdout).to_string();
+        let mut dacc = Acc::default();
+        let nexts: Vec<&str> = txt.lines().filter(|l| l.starts_with("DEEP-NEXT")).collect();
+        dacc.executions += nexts.len() as u64;
+        dacc.impl_calls += nexts.len() as u64;
+        for l in txt.lines().filter(|l| l.starts_with("DEEP-PANIC")) {
+            let f: Vec<&str> = l.splitn(6, ' ').collect();
+            dacc.violate(format!("C09|{}/{}|deep-{}|panic", f[1], f[2], f[3]), format!("parse of an authentic token whose payload nests {} {} levels deep panicked at {}", f[3], f[4], f.get(5).unwrap_or(&"")), json!({"kind": "deep", "line": l}));
+        }
+        if !txt.contains("DEEP-DONE") {
+            let last = nexts.last().copied().unwrap_or("DEEP-NEXT (none)");
+            let f: Vec<&str> = last.split(' ').collect();
+            dacc.violate(
+                format!("C09|{}/{}|deep-{}|process-abort", f.get(1).unwrap_or(&"?"), f.get(2).unwrap_or(&"?"), f.get(3).unwrap_or(&"?")),
+                format!("the process parsing an authentic token with a deeply nested payload ({}) died ({:?}): the caller is crashed, not handed an Err", last, o.status),
+                json!({"kind": "deep", "line": last}),
+            );
+        } else {
+            dacc.bump("deep-nesting:child-finished");
+        }
+        dacc.sample(json!({"family": "h-deep-nesting (child process)", "inputs": nexts.len(), "depths": [200, 3000, 100000]}));
+        all.merge(dacc);
+    }
 
     // ---- family (f): Key::<N>::try_from(&str)
     let mut kacc = Acc::default();
@@ -307,6 +364,10 @@ pub fn run(tier: &str) -> i32 {
 
 pub fn replay(case: &serde_json::Value) -> i32 {
     let mut acc = Acc::default();
+    if case["kind"] == "deep" {
+        println!("deep-nesting finding: re-run `./check C09 quick` (the input is regenerated in a child process): {}", case["line"]);
+        return 2;
+    }
     if case["kind"] == "hexkey" {
         let s = case["input"].as_str().unwrap_or("");
         match case["n"].as_u64().unwrap_or(32) {
